@@ -3,6 +3,7 @@
 package main
 
 import (
+	"encoding/json"
 	"fmt"
 	"strings"
 	"syscall"
@@ -134,6 +135,7 @@ func propC04(r *Run) {
 				{"ldap", pw != "", "non-empty password; the reference is asked for the name up to the first '@'", bindName, wantLDAP},
 				{"basic", !strings.Contains(u, ":") && u != "", "user without ':'", u, want},
 				{"api", u != "" && pw != "" && utf8.ValidString(pw) && utf8.ValidString(u), "JSON carries Unicode strings; non-empty fields", u, want},
+				{"api-incomplete", utf8.ValidString(u) && u != "", "a login body without a password (or without a user name) submits no credentials: deny", u, false},
 				{"cli", u != "" && pw != "" && !strings.HasPrefix(pw, "-") && !strings.HasPrefix(u, "-") && !strings.Contains(pw, "\x00"), "non-empty NUL-free arguments not starting with '-'", u, want},
 			}
 			var verdicts []string
@@ -151,6 +153,12 @@ func propC04(r *Run) {
 					}
 				} else {
 					c := &Call{Kind: "authenticate", Via: f.via, Agent: a.idx, User: f.user, PW: pw}
+					if f.via == "api-incomplete" {
+						uj, _ := json.Marshal(f.user)
+						c.Via = "api"
+						c.Raw = []string{`{"username":%s}`, `{"username":%s,"password":null}`, `{"username":%s,"password":""}`, `{"password":null}`, `{}`}[k%5]
+						c.Raw = strings.Replace(c.Raw, "%s", string(uj), 1)
+					}
 					w.addClient([]*Call{c})
 					if wedge := w.settle(nil); wedge != "" {
 						r.FailOther("C10", wedgeSignature(wedge), "%s", wedge)
